@@ -7,55 +7,8 @@
 package main
 
 import (
-	"flag"
-	"fmt"
-	"os"
-	"strconv"
-
 	"verif/core"
 	_ "verif/props"
 )
 
-func main() {
-	if len(os.Args) < 2 {
-		fmt.Println("usage: vworker drive|worker|replay|list ...")
-		os.Exit(2)
-	}
-	switch os.Args[1] {
-	case "list":
-		for _, id := range core.IDs() {
-			fmt.Println(id)
-		}
-	case "drive":
-		if len(os.Args) < 3 {
-			os.Exit(2)
-		}
-		tier := os.Getenv("VERIF_TIER")
-		if len(os.Args) > 3 {
-			tier = os.Args[3]
-		}
-		if tier != "thorough" {
-			tier = "quick"
-		}
-		seed := int64(1)
-		if s := os.Getenv("VERIF_SEED"); s != "" {
-			if v, err := strconv.ParseInt(s, 10, 64); err == nil {
-				seed = v
-			}
-		}
-		os.Exit(core.Drive(os.Args[2], tier, seed))
-	case "worker":
-		fs := flag.NewFlagSet("worker", flag.ExitOnError)
-		tier := fs.String("tier", "quick", "")
-		seed := fs.Int64("seed", 1, "")
-		shard := fs.Int("shard", 0, "")
-		nshards := fs.Int("nshards", 1, "")
-		only := fs.String("only", "", "")
-		fs.Parse(os.Args[3:])
-		os.Exit(core.RunWorker(os.Args[2], *tier, *seed, *shard, *nshards, *only))
-	case "replay":
-		os.Exit(core.Replay(os.Args[2]))
-	default:
-		os.Exit(2)
-	}
-}
+func main() { core.Main() }
